@@ -382,7 +382,9 @@ func ruleVerifyInside(r *core.Report, ruleID string) {
 		r.Check(ok, ruleID, core.FnName(verify), p.Pos(verify.Pos()), "returns a provably non-nil error unless Verifier.Verify returned true", "verify can return nil although the signature did not verify (an error value that is not provably non-nil is returned on the failing edge, e.g. errors.Wrapf of a nil error)")
 		// verified bytes = createPreSig(purpose, msg) of verify's own arguments
 		okArgs := false
-		for _, ci := range core.Calls(verify, func(ci ssa.CallInstruction) bool { return ci.Common().IsInvoke() && ci.Common().Method.Name() == "Verify" }) {
+		for _, ci := range core.Calls(verify, func(ci ssa.CallInstruction) bool {
+			return ci.Common().IsInvoke() && ci.Common().Method.Name() == "Verify"
+		}) {
 			okArgs = core.DerivesFrom(ci.Common().Args[0], func(x ssa.Value) bool {
 				c, idx, ok := core.CallResult(x)
 				return ok && idx == 0 && core.IsCallToFn(c.Common(), cps) && c.Call.Args[0] == ssa.Value(verify.Params[1]) && c.Call.Args[1] == ssa.Value(verify.Params[2])
